@@ -25,6 +25,7 @@ pub fn dispatch(_cmd: &str, _a: &Args) -> bool {
     match _cmd {
         "c03" => c03::run(_a),
         "c03-suite" => c03::suite(_a),
+        "c06-suite" => c03::suite_errors(_a),
         "c07" => c07::run(_a),
         "c12" => c12::run(_a),
         "c13" => c13::run(_a),
